@@ -27,7 +27,7 @@ CABI = os.path.join(tlc.VERIF, "corpus", "cabi", "cabi.ndjson")
 TLC_TIMEOUT = int(os.environ.get("C16_TLC_TIMEOUT", "21600"))
 
 # at most this many TLC JVMs of this check at a time (the machine-wide slot limiter of harness/tlc.py is shared)
-GATE = threading.BoundedSemaphore(int(os.environ.get("C16_MAX_JVMS", "8")))
+GATE = threading.BoundedSemaphore(int(os.environ.get("C16_MAX_JVMS", "9")))
 
 
 def _gen(cfg, kind, seed, simulate, depth, workers, wd, out):
@@ -83,7 +83,8 @@ def run(ctx):
                "bit of the value read in the member's byte order (what the language documents); gcc's own bit-field "
                "allocation rule is not the subject")
     ctx.assume("variable-length members (terminated, counted, bound, LEB128) have no C counterpart: they are generated in "
-               "packed structures only (sequential layout); LEB128 originals are shortest encodings below 2^27")
+               "packed structures only (sequential layout; also as arrays of 3 packed structures whose elements differ in length); "
+               "LEB128 originals are shortest encodings below 2^27 (64-bit boundary values are not generated)")
     wd = tlc.workdir("c16")
     t_start = time.time()
     out = {}
@@ -96,6 +97,7 @@ def run(ctx):
                 ("CStructGenVar_quick.cfg", "var", None, None, 4),
                 ("CStructGenUnion_quick.cfg", "union", None, None, 2),
                 ("CStructGenOrd_quick.cfg", "ord", None, None, 2),
+                ("CStructGenVarArr_quick.cfg", "vararr", None, None, 4),
                 ("CStructSim_quick.cfg", "sim", "num=3", 60, 8)]
     else:
         # (longest first: at most C16_MAX_JVMS run at a time)
@@ -107,7 +109,8 @@ def run(ctx):
                 ("CStructGen_all.cfg", "flat", None, None, 4),
                 ("CStructGenVar_all.cfg", "var", None, None, 2),
                 ("CStructGenUnion_all.cfg", "union", None, None, 1),
-                ("CStructGenOrd_all.cfg", "ord", None, None, 2)]
+                ("CStructGenOrd_all.cfg", "ord", None, None, 2),
+                ("CStructGenVarArr_all.cfg", "vararr", None, None, 4)]
     for cfg, kind, sim, depth, w in gens:
         t = threading.Thread(target=_gen, args=(cfg, kind, ctx.seed, sim, depth, w, wd, out))
         t.start()
